@@ -242,6 +242,16 @@ func rewrite(fset *token.FileSet, p *packages.Package, f *ast.File, fn string, s
 	// read/write) is put in front of the statement of the enclosing statement list that performs it; nested
 	// blocks and function literals are statement lists of their own
 	isFieldMap := func(e ast.Expr) (string, bool) {
+		if id, ok := e.(*ast.Ident); ok {
+			// a variable holding a map (possibly an alias of a shared one: `obs := b.observers`): the map object is
+			// what is identified at run time, the variable only names the access
+			if v, ok := p.TypesInfo.Uses[id].(*types.Var); ok && !v.IsField() {
+				if _, isMap := v.Type().Underlying().(*types.Map); isMap {
+					return id.Name, true
+				}
+			}
+			return "", false
+		}
 		sel, ok := e.(*ast.SelectorExpr)
 		if !ok {
 			return "", false
